@@ -210,6 +210,10 @@ func runC07(c *Ctx, r *Report) {
 	r.Rule("C07/waitgroup-add", "every sync.WaitGroup counter is raised by the spawning side, before the goroutine it accounts for exists", 1)
 	checkWaitGroupAddBeforeGo(c, r, "C07/waitgroup-add")
 	importFoundation(c, r, "C07", "queue")
+	r.Rule("C07/lock-order", "the library's mutexes are acquired in one global order (no deadlock between the reader, the caller and Close)", 1)
+	checkLockOrder(c, r, "C07/lock-order")
+	r.Rule("C07/no-reentrant-lock", "no method calls, while it holds a lock of its receiver, a method of the same receiver that takes that lock again", 1)
+	checkNoReentrantLock(c, r, "C07/no-reentrant-lock", nil)
 	r.Rule("C07/closed-result-nil", "a value received from a result channel that its worker may close without sending is nil-checked before use (no panic after a transport error)", 1)
 	importObligations(r, func(sub *Report) { checkClosedResultNil(c, sub) }, "C05/closed-result-nil", "C07/closed-result-nil")
 	r.Rule("C07/cancel-released", "the cancel function of every context the library creates is deferred or called on every path to a return (a poller watching the context does not outlive the operation)", 6)
